@@ -274,7 +274,9 @@ Definition gen_ok (cs : cellsys lz) (s : ost) (g : tgen) : bool :=
 Record tcase := mkTCase {
   tc_o : ocase;
   tc_layers : Z;                  (* neighbor_layers of the cell system *)
-  tc_gens : list (list tgen)      (* per recorded state (after initialize, after every update): its taggers *)
+  tc_gens : list (list tgen);     (* per recorded state (after initialize, after every update): its taggers *)
+  tc_vetos : list (list (list lz))  (* per recorded state: the cell-level targets handed to send_out_state by every
+                                       cell-veto event of this occupancy committed in that leg (non-empty ones) *)
 }.
 
 Definition case_cs (c : tcase) : cellsys lz := torus_cs (oc_counts (tc_o c)) (tc_layers c).
@@ -286,9 +288,25 @@ Fixpoint gens_ok (cs : cellsys lz) (states : list (ost * cmap)) (gens : list (li
   | _, _ => false
   end.
 
+(** the mediator hands the occupants of [translate(active_cell, sampled walker item)] to the committed cell-veto
+    event: the recorded targets are all occupants of one cell reached from a walker item *)
+Definition veto_ok (cs : cellsys lz) (s : ost) (tg : list lz) : bool :=
+  match yield_active_cells s with
+  | (ac, _) :: _ =>
+      existsb (fun r => same_members (veto_targets_of_cell list_Z_eqb cs s ac r) tg) (veto_domain list_Z_eqb cs)
+  | [] => false
+  end.
+
+Fixpoint vetos_ok (cs : cellsys lz) (states : list (ost * cmap)) (vs : list (list (list lz))) : bool :=
+  match states, vs with
+  | [], [] => true
+  | sc :: sr, v :: vr => forallb (veto_ok cs (fst sc)) v && vetos_ok cs sr vr
+  | _, _ => false
+  end.
+
 Definition check_tcase_run (c : tcase) : bool :=
   forallb (fun n => 0 <? n) (oc_counts (tc_o c)) && (0 <=? tc_layers c)
   && match run_case (tc_o c) with
-     | Some states => gens_ok (case_cs c) states (tc_gens c)
+     | Some states => gens_ok (case_cs c) states (tc_gens c) && vetos_ok (case_cs c) states (tc_vetos c)
      | None => false
      end.
